@@ -62,6 +62,27 @@ Theorem C12_errno_refuted_zuc_truncated_key :
 Proof. exact validate_errno_refuted_zuc_truncated_key. Qed.
 Print Assumptions C12_errno_refuted_zuc_truncated_key.
 
+(* checked asynchronous burst submission: accepted iff the array is there, the size and queue space are
+   in range, and EVERY entry is a non-NULL in-order slot whose job passes the job check and whose
+   stored suite id equals the dispatch-table indices of its session fields IN BOTH WORDS *)
+Theorem C12_burst_accept_iff :
+  forall b, burst_well_formed b = true -> (submit_burst_check b = BurstAccept <-> burst_ok b = true).
+Proof. exact burst_accept_iff. Qed.
+Print Assumptions C12_burst_accept_iff.
+
+Theorem C12_burst_reject_errno_names_a_violation :
+  forall b e k, burst_well_formed b = true -> submit_burst_check b = BurstReject e k -> In e (burst_violations b).
+Proof. exact burst_reject_errno_names_a_violation. Qed.
+Print Assumptions C12_burst_reject_errno_names_a_violation.
+
+Theorem C12_burst_examples :
+  (burst_well_formed (ex_burst 133 1) = true /\ submit_burst_check (ex_burst 133 1) = BurstAccept /\ burst_ok (ex_burst 133 1) = true) /\
+  (submit_burst_check (ex_burst 137 1) = BurstReject IMB_ERR_BURST_SUITE_ID (Some 1) /\ burst_ok (ex_burst 137 1) = false) /\
+  (submit_burst_check (ex_burst 133 3) = BurstReject IMB_ERR_BURST_SUITE_ID (Some 1) /\ burst_ok (ex_burst 133 3) = false) /\
+  submit_burst_check (ex_burst 137 3) = BurstReject IMB_ERR_BURST_SUITE_ID (Some 1).
+Proof. exact (conj burst_right_suite_accepted (conj burst_stale_cipher_word_rejected (conj burst_stale_hash_word_rejected burst_both_words_stale_rejected))). Qed.
+Print Assumptions C12_burst_examples.
+
 (* non-vacuity: the hypotheses are satisfiable and the verdicts are the expected ones *)
 Theorem C12_example_valid_cbc_hmac_sha1 :
   well_formed ex_valid_cbc_hmac_sha1 = true /\ outside_known_discrepancies ex_valid_cbc_hmac_sha1 = true /\
